@@ -156,6 +156,9 @@ func runFixed(c *core.Ctx, accuracy bool) {
 						}
 					}
 				}
+				if count == 1000 || (t.rep == 0 && count == 77) {
+					c.Sample("conversion", map[string]any{"fn": name, "source_amplitude": sa, "result_amplitude": da, "previous": []int64{prevSrc, prevDst}})
+				}
 				prevSrc, prevDst, have = sa, da, true
 			}
 			first = false
